@@ -236,7 +236,10 @@ def coq_eval(prop, imports, run_fn, terms, shard=500, extra_defs=""):
             f.write(imports + "\nSet Printing Width 2000000.\nSet Printing Depth 10000000.\n" + extra_defs + "\n")
             f.write("Definition cases := [\n" + ";\n".join(shards[i]) + "\n].\n")
             f.write("Eval vm_compute in (map %s cases).\n" % run_fn)
-        rc, out = sh(["timeout", "900", "coqc", "-q", "-noglob", "-Q", os.path.join(COQ, "theories"), "GW",
+        # (a case may make the model build a list of 10^5 elements with a non-tail-recursive
+        # function: evaluate with the stack limit lifted)
+        rc, out = sh(["bash", "-c", 'ulimit -s unlimited 2>/dev/null || ulimit -s 4000000 2>/dev/null; exec "$@"', "--",
+                      "timeout", "900", "coqc", "-q", "-noglob", "-Q", os.path.join(COQ, "theories"), "GW",
                       "-Q", wd, "Cases", "-w", "-all", path], timeout=1000)
         if rc != 0:
             raise Infra("coqc failed on %s: %s" % (path, out[-2000:]))
